@@ -95,6 +95,12 @@ def _matrix_cases(ctx, rng, count):
 
 
 def run(ctx: C.Ctx):
+    from .. import shapes_static, translate_householder
+    shapes_static.run_with_translation(ctx, translate_householder, "Householder", "Householder-loop", lambda: _run(ctx),
+                                       "regenerated from CCQR.fit / qr_reflector / GQR.fit: pivot rule, reflector steps (denoting `reflector`), order of the array operations")
+
+
+def _run(ctx: C.Ctx):
     rng = ctx.rng
     # ---- optimizers on explicit basis matrices ------------------------------------------
     todo = []
